@@ -570,6 +570,20 @@ impl Store {
                 "document not created"
             );
 
+            // The list is ordered by these stamps. Never stamp a registration at or before the
+            // newest one already recorded for the document, so that the order stays the order
+            // of registration even if the wall clock stalls or jumps backwards.
+            let newest_nanos = tables
+                .namespace_peers
+                .get(namespace)?
+                .next_back()
+                .transpose()?
+                .map(|guard| guard.value().0);
+            let nanos = match newest_nanos {
+                Some(newest) if newest >= nanos => newest.saturating_add(1),
+                _ => nanos,
+            };
+
             let mut namespace_peers = tables.namespace_peers.get(namespace)?;
 
             // get the oldest entry since it's candidate for removal
